@@ -286,7 +286,17 @@ def bash_reader(script):
         for name in ('command_transitions', 'star_transitions'):
             if name + '[' in body:
                 needed.append(name)
-    R['missing_locals'] = {k: [n for n in needed if n not in names] for k, names in R.get('declared', {}).items()}
+    per_level = ['literal_transitions_level_%d']
+    if m and 'commands_level_' in m.group(1):
+        per_level.append('commands_level_%d')
+    R['missing_locals'] = {}
+    for k, names in R.get('declared', {}).items():
+        T = R['subwords'].get(k)
+        want = list(needed)
+        if T is not None and T.get('max_level') is not None:
+            for lv in range(T['max_level'] + 1):
+                want.extend(n % lv for n in per_level)
+        R['missing_locals'][k] = [n for n in want if n not in names]
     R['missing_locals'] = {k: v for k, v in R['missing_locals'].items() if v}
     return R
 
